@@ -304,6 +304,47 @@ def replay(prop, case, workdir):
     return 1 if hit or a != b else 0
 
 
+def anonymous_side(res, n):
+    """the first n corpus cases with node ids removed where nothing refers to them; run uninterrupted (cached beside the corpus)"""
+    cp = os.path.join(res['dir'], 'cases-anon.jsonl')
+    out = os.path.join(res['dir'], 'impl-anon.txt')
+    done = out + '.done'
+    by_id = {}
+    lines = []
+    for l in open(res['cases']):
+        if not l.strip() or len(lines) >= n:
+            continue
+        c = json.loads(l)
+        refs = set(re.findall(r'"(?:next|to)": "([^"]+)"', l))
+        for m in re.finditer(r'"needs": \[([^\]]*)\]', l):
+            refs.update(re.findall(r'"([^"]+)"', m.group(1)))
+
+        def strip(v, top=False):
+            if isinstance(v, dict):
+                if not top and 'id' in v and v['id'] not in refs and ('uses' in v or 'acts' in v or 'branches' in v or not v.get('steps')):
+                    if 'if' not in v or 'uses' in v:      # a branch keeps its id (else / needs speak about siblings)
+                        v.pop('id')
+                for k, x in v.items():
+                    if k not in ('o', 'params', 'inputs', 'outputs'):
+                        strip(x)
+            elif isinstance(v, list):
+                for x in v:
+                    strip(x)
+        strip(c['wf'], top=True)
+        c['id'] = 'an' + c['id']
+        by_id[c['id']] = c
+        lines.append(json.dumps(c) + "\n")
+    if os.path.exists(done) and os.path.exists(cp) and open(cp).read() == "".join(lines):
+        return {'dir': res['dir'], 'cases': cp, 'impl': out, 'by_id': by_id, 'errs': json.load(open(done))}
+    open(cp, 'w').write("".join(lines))
+    wd = os.path.join(res['dir'], 'var-anon')
+    errs = engine.run_harness(cp, out, wd, ('extra',))
+    import shutil
+    shutil.rmtree(wd, ignore_errors=True)
+    json.dump(errs, open(done, 'w'))
+    return {'dir': res['dir'], 'cases': cp, 'impl': out, 'by_id': by_id, 'errs': errs}
+
+
 def run_c12(tier, seed):
     """run A (never interrupted) against run B (process dropped from the cache and reloaded before every
     operation, memory store) and run C (engine stopped and restarted on the SQLite store before every operation)"""
@@ -318,8 +359,16 @@ def run_c12(tier, seed):
     f = lambda l: re.sub(r' \d{4,}$', '', l) if l[0] in 'NT' else l
     violations, broken = [], []
     stats = {}
-    for name, flags in (('evict', ('extra', 'evict')), ('sqlite-restart', ('extra', 'sqlite', 'restart'))):
-        out, errs = engine.variant(res, name, flags)
+    # the same workflows with the ids of their acts (and of steps nothing refers to) left out: the engine generates ids
+    # for them when it builds the tree, and a reload has to come back with the same ones
+    anon = anonymous_side(res, 120 if tier == 'quick' else 1500)
+    anon_a = engine.split_cases(anon['impl'])
+    runs = [(res, a, cases, 'evict', ('extra', 'evict')), (res, a, cases, 'sqlite-restart', ('extra', 'sqlite', 'restart')),
+            (anon, anon_a, anon['by_id'], 'anon-evict', ('extra', 'evict')), (anon, anon_a, anon['by_id'], 'anon-sqlite-restart', ('extra', 'sqlite', 'restart'))]
+    if anon['errs']:
+        broken.append(('harness', "anon: " + "; ".join(anon['errs'])[:400]))
+    for rs, a, cases, name, flags in runs:
+        out, errs = engine.variant(rs, name, flags)
         if errs:
             broken.append(('harness', f"{name}: " + "; ".join(errs)[:400]))
         b = engine.split_cases(out)
@@ -342,8 +391,9 @@ def run_c12(tier, seed):
             violations.append({'class': cls, 'detail': f"case {cid} ({name}): the uninterrupted run continues with `{ex}`, the reloaded run with `{ob}` (line {k})",
                                'case': {'kind': 'engine-variant', 'case': c, 'variant': name, 'flags': list(flags), 'at': k, 'expected': ex, 'observed': ob}})
         stats[name] = {'same': same, 'of': len(cases)}
+    cases, a = runs[0][2], runs[0][1]
     nontrivial = len([cid for cid in cases if sum(1 for l in a.get(cid, []) if l.startswith('A ')) >= 2])
-    cov = {'evaluations': 2 * len(cases), 'distinct_nontrivial': nontrivial,
+    cov = {'evaluations': 2 * len(cases) + 2 * len(anon['by_id']), 'distinct_nontrivial': nontrivial,
            'rule': "every case of the engine corpus (generated workflows with model-driven client histories) is run three times on the real engine: uninterrupted; with the process dropped from the cache and reloaded from the memory store before every operation; with the engine closed and a new engine started on the same SQLite database before every operation. N/T/M/P/A/D lines (task creations, state writes, messages, process events, action results, final task data) are compared without ids and times; non-trivial = at least two operations, i.e. at least two reload points",
            'traces_validated_against_impl': min(v['same'] for v in stats.values()), 'variants': stats, 'input_distribution': res['distribution'], 'corpus_cases': res['ncorpus'],
            'samples': [json.loads(open(res['cases']).readline())]}
